@@ -5,7 +5,7 @@ from .scratch import Scratch
 def main():
     with Scratch() as sc:
         for crate, feats in (("shuttle-engine", []), ("shuttle-engine", ["vector-clocks"]), ("shuttle-schedulers", []),
-                             ("shuttle-std", [])):
+                             ("shuttle-std", []), ("deterministic_collections", []), ("shuttle-parking_lot-impl", [])):
             ok, log, wall = kani.warm(sc, crate, feats)
             print("warm %s %s: %s %.0fs" % (crate, feats, "ok" if ok else "FAILED", wall))
             if not ok:
